@@ -116,8 +116,27 @@ def strat_hetero():
     return s()
 
 
+def run_system(case):
+    from checks.c13_system_losses import run_case as run_sys
+
+    v = run_sys(case)
+    if not v.ok and not v.bucket.startswith("exc:") and "param" not in v.bucket and "value" not in v.bucket:
+        return v
+    return v
+
+
+def strat_system():
+    from checks.c13_system_losses import strat as sys_strat
+
+    return sys_strat(force_pb=True)
+
+
 def subchecks():
     return [
+        SubCheck(name="system_losses_param_batch", mode="given", strategy=strat_system, run_case=run_system,
+                 counts={"quick": 64, "thorough": 1500}, shards={"quick": 4, "thorough": 16}, clear_every=40,
+                 doc="SystemLossODE / SystemLossPDE with a per-sample parameter batch vs per-sample reference; caller's "
+                     "params_dict unchanged"),
         SubCheck(name="single_losses_param_batch", mode="given", strategy=strat, run_case=run_case,
                  counts={"quick": 160, "thorough": 4000}, shards={"quick": 8, "thorough": 16}, clear_every=50,
                  doc="every term of ODE/stationary/non-stationary losses with a per-sample parameter batch (+ optional "
